@@ -29,7 +29,7 @@ class C20(vlib.Check):
         return ['-fsanitize=thread']
 
     def gen(self, rng, tier):
-        n = 24 if tier == 'quick' else 300
+        n = 24 if tier == 'quick' else 1500
         yield 'thr 8 1 400'
         yield 'thr 16 2 200'
         yield 'thr 2 3 3000'
